@@ -77,9 +77,14 @@ def callee(e):
 
 
 def base_path(p):
-    """Def path with generic argument lists removed: a::B::<T>::c -> a::B::c"""
+    """Def path with generic argument lists removed: a::B::<T>::c -> a::B::c
+    (inherent impls of the numeric primitives keep their type: core::num::<impl u8>::f -> core::num::u8::f)"""
     if p is None:
         return None
+    if p.startswith("core::num::<impl ") and ">::" in p:
+        t, rest = p[len("core::num::<impl "):].split(">::", 1)
+        if t.isidentifier():
+            p = "core::num::%s::%s" % (t, rest)
     out = []
     depth = 0
     i = 0
